@@ -139,6 +139,15 @@ int work(int n, int k) {
             acc += u[0];
         }
     }
+    for (int m = 0; m < n; m += 1) {
+        int[] p1 = [m, 1];
+        byte p2[3];
+        p2[0] = 'p';
+        int[] p3 = [m];
+        acc += p1[0] + p3[0] + p2[0];
+        if (m == k + 200) { continue; }
+        { bool q1[9]; int[] q2 = [acc]; q1[8] = true; if (q1[8]) { acc += q2[0] % 3; } }
+    }
     return acc;
 }
 empty @is_you(int n, int k) {
